@@ -46,7 +46,7 @@ def build(rng, W, i):
     """one scenario descriptor (before signing)"""
     nsign = rng.choice([0, 1, 1, 2, 2, 3])
     S = rng.sample(OWNERS, nsign)
-    layout, plan = pipeline.valid_layout(rng, W, readme=rng.choice(["", "readme", "multi\nline", 'q"\\']))
+    layout, plan = pipeline.valid_layout(rng, W, readme=rng.choice(["", "readme", "multi\nline", 'q"\\', "C:\\nightly\\tools", "tab\there", "x\\u0041y", "a\\/b"]))
     links = pipeline.valid_links(rng, W, plan)
     return {"S": S, "layout": layout, "plan": plan, "links": links}
 
@@ -110,9 +110,10 @@ def shard(binpath, seed, sh, n):
         content_edit = None
         desc = action
         if action == "content":
-            edits = list(scen.single_edits(wire["signed"], rng, 1))
+            edits = list(scen.single_edits(wire["signed"], rng, None))
+            special = [e for e in edits if e[0].startswith(("respell@", "match_prefix@"))]
             if edits:
-                content_edit, newdoc = edits[0]
+                content_edit, newdoc = rng.choice(special) if special and rng.random() < 0.35 else rng.choice(edits)
                 wire["signed"] = newdoc
                 broken = set(S)
                 desc = "content:" + content_edit
